@@ -114,7 +114,10 @@ class Module:
                 self.norm_counts['tail_iteration'] = self.norm_counts.get('tail_iteration', 0) + tail_iteration_to_recursion(self.tree)
             from .normalize import unroll_literal_loops, fuse_nested_comprehensions, immediate_partials_to_calls
             self.norm_counts['immediate_partials'] = immediate_partials_to_calls(self.tree)
+            from .normalize import class_constant_tables, constant_getattr
+            self.norm_counts['class_tables'] = class_constant_tables(self.tree)
             self.norm_counts['unrolled'] = unroll_literal_loops(self.tree)
+            self.norm_counts['constant_getattr'] = constant_getattr(self.tree)
             self.norm_counts['fused'] = fuse_nested_comprehensions(self.tree)
             from .normalize import flatten_starred_displays, slice_objects_to_slices
             self.norm_counts['slice_objects'] = slice_objects_to_slices(self.tree)
